@@ -826,6 +826,34 @@ case_ann(long idx, void *ctx)
     {
         const char *who = w ? "other interface" : "writer's own view";
         char        got[400];
+        if (kind == 0) {
+            /* the list view: one slot of maxlen bytes per object, each label cut to maxlen-1 characters and terminated inside
+               its own slot (exactly-sized heap buffer) */
+            static const int ML[3] = {310, 16, 2};
+            for (int q = 0; q < 3; q++) {
+                int    maxlen = ML[q];
+                uint16 refs[2] = {0, 0};
+                char  *lst = malloc((size_t)2 * maxlen);
+                memset(lst, 0x7E, (size_t)2 * maxlen);
+                int n = DFANlablist(PATH, 1000, refs, lst, 2, maxlen, 1);
+                if (n != 2)
+                    DISAGREE("ann:dfan-lablist-count", "%s: DFANlablist(maxlen %d) lists %d objects of tag 1000, 2 exist", who, maxlen, n);
+                else
+                    for (int i = 0; i < 2; i++) {
+                        const char *want = refs[i] == 1 ? text : refs[i] == 2 ? text2 : NULL;
+                        size_t      wl   = want ? strlen(want) : 0;
+                        if (wl > (size_t)maxlen - 1)
+                            wl = (size_t)maxlen - 1;
+                        const char *slot = lst + (size_t)i * maxlen;
+                        if (!want || memchr(slot, 0, (size_t)maxlen) == NULL || strlen(slot) != wl || strncmp(slot, want, wl)) {
+                            DISAGREE("ann:dfan-lablist-text", "%s: DFANlablist(maxlen %d): slot %d (object 1000/%u) does not hold the first %d characters of its label, terminated inside the slot",
+                                     who, maxlen, i, refs[i], (int)wl);
+                            break;
+                        }
+                    }
+                free(lst);
+            }
+        }
         if (kind < 2)
             for (int k = 0; k < 2; k++) {
                 const char *want = k ? text2 : text;
